@@ -1220,6 +1220,8 @@ fn can(x: &mut Exec) -> Res {
 // ------------------------------------------------------------------------------------ C13 / C15
 coroutine_local!(static CLS_ID: Cell<usize> = Cell::new(usize::MAX));
 coroutine_local!(static CLS_TR: RefCell<Option<ClsVal>> = RefCell::new(None));
+// a second key with the *same value type* as CLS_ID: keys are distinct although their types are not
+coroutine_local!(static CLS_ID2: Cell<usize> = Cell::new(424_242));
 coroutine_local!(static CLS_INIT: Cell<u64> = { CLS_INITS.fetch_add(1, SeqCst); Cell::new(7) });
 static CLS_INITS: AtomicUsize = AtomicUsize::new(0);
 static CLS_DROPS: AtomicUsize = AtomicUsize::new(0);
@@ -1527,6 +1529,7 @@ fn cls(x: &mut Exec) -> Res {
         let odd_stack = if x.rng.chance(1, 3) { Some(*x.rng.pick(&[0x6000usize, 0x14000, 0x20000])) } else { None };
         let body = move || {
             CLS_ID.with(|c| c.set(1000 + i));
+            CLS_ID2.with(|c| c.set(777_000 + i));
             CLS_TR.with(|t| *t.borrow_mut() = Some(ClsVal(1000 + i)));
             CLS_INIT.with(|c| c.set(99));
             match residue {
@@ -1636,6 +1639,15 @@ fn cls(x: &mut Exec) -> Res {
             }
             CLS_ID.with(|c| c.set(i));
             CLS_TR.with(|t| *t.borrow_mut() = Some(ClsVal(i)));
+            // key identity: another key of the same value type is its own slot, created by its own initialiser
+            let second = CLS_ID2.with(|c| c.get());
+            if second != 424_242 {
+                errs.lock().unwrap().push(format!("first access to a second key of the same value type did not yield its initialiser's value 424242 but {} (this coroutine had just stored {} under the first key; predecessors store 777xxx under the second)", second, i));
+            }
+            CLS_ID2.with(|c| c.set(500_000 + i));
+            if CLS_ID.with(|c| c.get()) != i {
+                errs.lock().unwrap().push("a store through one key changed the value of another key of the same value type".into());
+            }
             // no pending cancel, no stale result: the very first blocking call is the one that would meet a result
             // left in the pooled stack. A wake-up that passes no result (a plain unpark, a mutex hand-over) is the
             // one that exposes it, a time-out overwrites it.
@@ -1707,6 +1719,9 @@ fn cls(x: &mut Exec) -> Res {
                     errs.lock().unwrap().push("local value changed across a yield".into());
                 }
             }
+            if CLS_ID2.with(|c| c.get()) != 500_000 + i {
+                errs.lock().unwrap().push("value of the second key changed across yields".into());
+            }
             if CLS_TR.with(|t| t.borrow().as_ref().map(|v| v.0)) != Some(i) {
                 CLS_BAD_OWNER.fetch_add(1, SeqCst);
                 errs.lock().unwrap().push("local object belongs to another coroutine".into());
@@ -1721,9 +1736,17 @@ fn cls(x: &mut Exec) -> Res {
                 errs.lock().unwrap().push("thread fallback value not fresh for a new thread".into());
             }
             CLS_ID.with(|c| c.set(5));
+            let second = CLS_ID2.with(|c| c.get());
+            if second != 424_242 {
+                errs.lock().unwrap().push(format!("thread fallback: first access to a second key of the same value type gave {} instead of its initialiser's 424242", second));
+            }
+            CLS_ID2.with(|c| c.set(6));
             std::thread::sleep(Duration::from_micros(200));
             if CLS_ID.with(|c| c.get()) != 5 {
                 errs.lock().unwrap().push("thread fallback value changed".into());
+            }
+            if CLS_ID2.with(|c| c.get()) != 6 {
+                errs.lock().unwrap().push("thread fallback value of the second key changed".into());
             }
         });
     }
